@@ -3,6 +3,7 @@ package props
 import (
 	"fmt"
 	"go/token"
+	"go/types"
 
 	"elaverif/ssau"
 
@@ -287,8 +288,37 @@ func runC33(c *Ctx) {
 					if b.Op == token.NEQ && (fromParse(b.X, 2) || fromParse(b.Y, 2)) {
 						nTest++
 					}
-					if b.Op == token.LSS && fromParse(b.X, 1) {
+					mv, other := b.X, b.Y
+					isM := b.Op == token.LSS && fromParse(b.X, 1)
+					if b.Op == token.GTR && fromParse(b.Y, 1) {
+						isM, mv, other = true, b.Y, b.X
+					}
+					_ = other
+					if isM {
 						mTest++
+						// m is parsed as int(code[0]) - PUSH1 + 1 and may be negative: the test against the minimum must
+						// not be made on an unsigned conversion of it unless m < 1 (or <= 0, < 0) was rejected before
+						if cv, ok := mv.(*ssa.Convert); ok && isSignedInt(cv.X.Type()) && isUnsignedInt(cv.Type()) {
+							guarded := false
+							for _, j := range ssau.Ifs(f) {
+								jb, ok := j.Cond.(*ssa.BinOp)
+								if !ok || !fromParse(jb.X, 1) {
+									continue
+								}
+								if _, isConv := jb.X.(*ssa.Convert); isConv {
+									continue
+								}
+								var k int64
+								isK := false
+								if kc, ok := jb.Y.(*ssa.Const); ok {
+									k, isK = constInt(kc)
+								}
+								if isK && ((jb.Op == token.LSS && (k == 0 || k == 1)) || (jb.Op == token.LEQ && k == 0)) && j.Block().Dominates(i.Block()) {
+									guarded = true
+								}
+							}
+							c.R.Check("G-quorum", ver+"|m compared as a signed quantity", guarded, c.posOf(i), "the parsed signature count m (a signed int that is negative for a leading opcode below PUSH1) is converted to an unsigned type for the comparison with the minimum: a negative m wraps around and passes")
+						}
 					}
 				}
 			}
@@ -410,5 +440,34 @@ func runC33(c *Ctx) {
 	if f := c.fn(txpkg, wtype, "GetSaveProcessor"); f != nil {
 		n := len(ssau.CallsInDeep(f, namedCall("DBPutData")))
 		c.R.Check("G-single-use", "GetSaveProcessor|records hashes", n >= 2, c.pos(f.Pos()), fmt.Sprintf("%d DBPutData sites into the Tx3 index", n))
+		// every hash is recorded: a loop around a DBPutData call is left only when exhausted or with an error
+		nl := 0
+		fns := append([]*ssa.Function{f}, f.AnonFuncs...)
+		for _, g := range fns {
+			seenH := map[*ssa.BasicBlock]bool{}
+			for _, call := range ssau.CallsIn(g, namedCall("DBPutData")) {
+				for _, h := range loopHeaders(call.Block()) {
+					if seenH[h] {
+						continue
+					}
+					seenH[h] = true
+					nl++
+					bad := c.earlyLoopExits(g, h)
+					c.R.Check("G-single-use", fmt.Sprintf("GetSaveProcessor|recording loop %d runs to exhaustion", nl), len(bad) == 0, c.posOf(call),
+						fmt.Sprintf("the loop recording withdrawn hashes is left only when its range is exhausted or with an error (early exits: %v)", bad))
+				}
+			}
+		}
+		c.R.FloorCheck("G-single-use recording loops", nl, 2)
 	}
+}
+
+func isSignedInt(t types.Type) bool {
+	b, ok := t.Underlying().(*types.Basic)
+	return ok && b.Info()&types.IsInteger != 0 && b.Info()&types.IsUnsigned == 0
+}
+
+func isUnsignedInt(t types.Type) bool {
+	b, ok := t.Underlying().(*types.Basic)
+	return ok && b.Info()&types.IsUnsigned != 0
 }
